@@ -34,6 +34,8 @@ pub struct Chan {
     /// max bytes accepted per poll_write call (partial writes)
     pub max_write: Option<usize>,
     pub tap: Vec<u8>,
+    /// (tap length after the write, global logical clock) for every accepted write: orders bytes across connections
+    pub marks: Vec<(usize, u64)>,
     pub broken: Option<io::ErrorKind>,
     pub rdropped: bool,
     pub wdropped: bool,
@@ -126,7 +128,8 @@ impl AsyncWrite for W {
             *k -= n;
         }
         c.tap.extend_from_slice(&data[..n]);
-        bump();
+        let len = c.tap.len();
+        c.marks.push((len, ACTIVITY.fetch_add(1, Ordering::SeqCst)));
         Poll::Ready(Ok(n))
     }
     fn poll_flush(self: Pin<&mut Self>, _: &mut Context<'_>) -> Poll<io::Result<()>> {
@@ -209,6 +212,14 @@ impl H {
             vec![]
         } else {
             c.tap[off..].to_vec()
+        }
+    }
+    /// logical time at which the byte at tap position `off` (1-based end offset) was accepted
+    pub fn clock_at(&self, off: usize) -> u64 {
+        let c = self.0.lock().unwrap();
+        match c.marks.binary_search_by(|m| m.0.cmp(&off)) {
+            Ok(i) => c.marks[i].1,
+            Err(i) => c.marks.get(i).map(|m| m.1).unwrap_or(u64::MAX),
         }
     }
     pub fn tap_len(&self) -> usize {
